@@ -199,6 +199,16 @@ func runC02(c *Ctx) {
 		kp := randKey(c)
 		do("uniform", dataScript(c.rng.Bytes(32), c.rng.Bytes(32)), kp.priv, c.rng.Bytes(32))
 	}
+	// several candidates inside one Read (a single data item holding 2..5 candidates, the first ones rejected)
+	for nrej := 1; nrej <= 4; nrej++ {
+		var blob []byte
+		for j := 0; j < nrej; j++ {
+			blob = append(blob, [][]byte{bigK, zeroK, allFF}[j%3]...)
+		}
+		blob = append(blob, be32(randK(c))...)
+		blob = append(blob, c.rng.Bytes(17)...)
+		do(fmt.Sprintf("one-item/%drejected", nrej), []scriptItem{{'d', blob}}, keys[4].priv, c.rng.Bytes(32))
+	}
 	// chunked delivery of the same stream does not change the result
 	kp := keys[3]
 	stream := append(append([]byte{}, bigK...), be32(randK(c))...)
@@ -329,6 +339,15 @@ func runC12(c *Ctx) {
 	for name, v := range boundary {
 		gen("first="+name, dataScript(be32(v), be32(randK(c))))
 		gen("only="+name, dataScript(be32(v)))
+	}
+	for nrej := 1; nrej <= 4; nrej++ {
+		var blob []byte
+		for j := 0; j < nrej; j++ {
+			blob = append(blob, be32([]*big.Int{boundary["0"], boundary["n"], boundary["max"], boundary["n-1"]}[j])...)
+		}
+		blob = append(blob, be32(randK(c))...)
+		blob = append(blob, c.rng.Bytes(5)...)
+		gen(fmt.Sprintf("one-item/%drejected", nrej), []scriptItem{{'d', blob}})
 	}
 	gen("four-rejected", dataScript(be32(boundary["0"]), be32(boundary["n-1"]), be32(boundary["n"]), be32(boundary["max"]), be32(randK(c))))
 	for i := 0; i < nRand; i++ {
